@@ -68,7 +68,7 @@ def MUN(n, a, b):
     return If(compare(a, b, "=="), 0.0, Sym(MUNF(as_int_term(lift(n)), as_real_term(lift(a)), as_real_term(lift(b))), "r"))      # degenerate interval: 0
 
 
-def hook_measure(interp):
+def hook_measure(interp, xn=False):
     from pyvc import ctx
     from pyvc.sym import PyRaise
 
@@ -86,7 +86,8 @@ def hook_measure(interp):
         a_, b_ = b["a"], b["b"]
         ctx.PATH.check(f"{it.frames[-1].func.fq if it.frames else '<unit>'} -> LevyMeasure.integrate::requires(a<=b)", a_ <= b_)
         return MUN(b["n"], a_, b_)
-    interp.hooks[LM + "LevyMeasure.integrate_against_xn"] = integ_n
+    if xn:      # only where the n-th moment of the INNER measure is the abstraction (the dispatch body itself is a C09 target)
+        interp.hooks[LM + "LevyMeasure.integrate_against_xn"] = integ_n
 
 
 class QVector(FunctionContract):
@@ -450,7 +451,7 @@ class TruncatedIntegrate(FunctionContract):
         return super().make_unit(case, interp_factory)
 
     def configure(self, interp):
-        hook_measure(interp)
+        hook_measure(interp, xn=True)
 
     def setup(self, vc, case):
         l, r = vc.real("l"), vc.real("r")
